@@ -172,6 +172,12 @@ func body(c *explore.Chooser) *explore.Case {
 	enableBlocks := []string{"", "promql/aggregate", "rule/label", "promql/regexp", "promql/series"}
 	eb := c.Free(len(enableBlocks), "rule-enable-block")
 	baseCfg := baseCfg
+	// `locked = true` on the rule{} block only shields its checks against rule-level disable/snooze comments;
+	// every by-name mechanism must work on them exactly as without it
+	locked := c.Free(2, "locked") == 1
+	if locked {
+		baseCfg = promBlock + fixtures.OfflineConfig(true) + onlineRuleBlock
+	}
 	if eb > 0 {
 		baseCfg += "\nrule {\n  enable = [\"" + enableBlocks[eb] + "\"]\n}\n"
 	}
@@ -203,7 +209,7 @@ func body(c *explore.Chooser) *explore.Case {
 		baselines[baseCfg] = baselineT{b, e}
 	}
 	before, herr := baselines[baseCfg].items, baselines[baseCfg].err
-	input := map[string]any{"mechanism": mechanisms[mech], "names": list, "rule_enable_block": enableBlocks[eb]}
+	input := map[string]any{"mechanism": mechanisms[mech], "names": list, "rule_enable_block": enableBlocks[eb], "locked_rule_block": locked}
 	cs := &explore.Case{Input: input, Outcome: mechanisms[mech]}
 	if herr != "" {
 		cs.Violate("harness:"+herr, herr, nil)
